@@ -103,7 +103,20 @@ func ruleNatsRemoveBeforeInvoke(c *Ctx) {
 		tr := runTrace(p, fn, sp)
 		bad := ""
 		ninv := 0
-		for _, path := range tr.Paths {
+		// one segment per handled message (loop iteration)
+		var segs [][]Ev
+		for _, full := range tr.Paths {
+			cur := []Ev{}
+			for _, e := range full {
+				if e.Kind == "msg" && len(cur) > 0 {
+					segs = append(segs, cur)
+					cur = []Ev{}
+				}
+				cur = append(cur, e)
+			}
+			segs = append(segs, cur)
+		}
+		for _, path := range segs {
 			li := indexKind(path, "lookup")
 			for i, e := range path {
 				if e.Kind != "invoke" && e.Kind != "invoke:go" {
